@@ -68,11 +68,13 @@ Inductive kaction :=
 | KStopRet (i : nat)           (* Router.Stop returns to caller i *)
 | KWs (i : nat) | KOv (i : nat) | KDb (i : nat).
 
-(* router actions of a closing server: no new call, connection or message *)
+(* router actions of a closing server: the Stop threads, the handler goroutines and the
+   connection set-ups that are under way; no new call, connection or message *)
 Definition allowed (a : action) : bool :=
   match a with
   | AHostStop _ | ACloseAll _ | AWait _
-  | AHRecvErr _ | AHCheck _ | AHDispatch _ | AHExitClose _ | AHExitDone _ | AHExitRemove _ => true
+  | AHRecvErr _ | AHCheck _ | AHDispatch _ | AHExitClose _ | AHExitDone _ | AHExitRemove _
+  | ABegin _ | AEnd _ | ARecvIdFail _ | ACheckPeer _ _ | ARegister _ | ALaunch _ => true
   | _ => false
   end.
 
@@ -80,7 +82,7 @@ Definition set_callers (s : kstate) (l : list kpc) : kstate :=
   mkK (flag s) (klock s) (start s) (sent s) l (router s) (ws_started s) (instances_k s)
       (ov_closed_k s) (db_open s) (db_file s).
 
-Definition kstep (cta del_db fx : bool) (s : kstate) (a : kaction) : option kstate :=
+Definition kstep (cta del_db : bool) (fx : fixes) (s : kstate) (a : kaction) : option kstate :=
   match a with
   | KStartArrive =>
       match start s with
@@ -167,7 +169,7 @@ Definition kstep (cta del_db fx : bool) (s : kstate) (a : kaction) : option ksta
       end
   end.
 
-Fixpoint krun (cta del_db fx : bool) (s : kstate) (acts : list kaction) : option kstate :=
+Fixpoint krun (cta del_db : bool) (fx : fixes) (s : kstate) (acts : list kaction) : option kstate :=
   match acts with
   | [] => Some s
   | a :: r => match kstep cta del_db fx s a with None => None | Some s' => krun cta del_db fx s' r end
@@ -195,15 +197,17 @@ Definition candidates (s : kstate) : list kaction :=
            (seq 0 (length (callers s))) ++
   flat_map (fun t => [KR (AHostStop t); KR (ACloseAll t); KR (AWait t)]) (seq 0 (length (stops (router s)))) ++
   flat_map (fun c => [KR (AHRecvErr c); KR (AHCheck c); KR (AHDispatch c); KR (AHExitClose c);
-                      KR (AHExitDone c); KR (AHExitRemove c)]) (seq 0 (length (conns (router s)))).
+                      KR (AHExitDone c); KR (AHExitRemove c);
+                      KR (ABegin c); KR (ARecvIdFail c); KR (ACheckPeer c true); KR (ARegister c); KR (ALaunch c);
+                      KR (AEnd c)]) (seq 0 (length (conns (router s)))).
 
-Fixpoint first_enabled (cta del_db fx : bool) (s : kstate) (l : list kaction) : option kstate :=
+Fixpoint first_enabled (cta del_db : bool) (fx : fixes) (s : kstate) (l : list kaction) : option kstate :=
   match l with
   | [] => None
   | a :: r => match kstep cta del_db fx s a with Some s' => Some s' | None => first_enabled cta del_db fx s r end
   end.
 
-Fixpoint sched (cta del_db fx : bool) (fuel : nat) (s : kstate) : kstate :=
+Fixpoint sched (cta del_db : bool) (fx : fixes) (fuel : nat) (s : kstate) : kstate :=
   match fuel with
   | 0 => s
   | S f => match first_enabled cta del_db fx s (candidates s) with
